@@ -108,6 +108,7 @@ fn history(st: &mut Stats, rng: &mut Rng, rows: usize, cols: usize) {
     let mut s = match built { Outcome::Ok(s) => s, o => { st.violation("C06:construct:panic", format!("{} ; {:?}", o.describe(), log)); return; } };
     if !check_views(st, &s, &m, "construction", &|| format!("{:?}", log)) { return; }
     let steps = rng.usize(0, 25);
+    let hot = rng.usize(0, 10); // a column (row after a transpose) that receives half of the fresh inserts: long columns built in arbitrary order
     let mut h = hash_str("hist") ^ (rows * 16 + cols) as u64;
     for _ in 0..steps {
         let op = rng.below(10);
@@ -115,7 +116,7 @@ fn history(st: &mut Stats, rng: &mut Rng, rows: usize, cols: usize) {
         let name: String;
         match op {
             0..=3 if m.rows > 0 && m.cols > 0 => { // insert: new or overwrite
-                let (r, c) = if !m.e.is_empty() && rng.chance(0.4) { let k = rng.below(m.e.len() as u64) as usize; *m.e.keys().nth(k).unwrap() } else { (rng.usize(0, m.rows - 1), rng.usize(0, m.cols - 1)) };
+                let (r, c) = if !m.e.is_empty() && rng.chance(0.4) { let k = rng.below(m.e.len() as u64) as usize; *m.e.keys().nth(k).unwrap() } else if rng.chance(0.5) { (rng.usize(0, m.rows - 1), hot % m.cols) } else { (rng.usize(0, m.rows - 1), rng.usize(0, m.cols - 1)) };
                 let v = Rat::int(rng.int(-9, 9));
                 let kind = if m.e.contains_key(&(r, c)) { "overwrite" } else { "new" };
                 m.e.insert((r, c), v);
@@ -182,19 +183,19 @@ fn exhaustive_patterns(st: &mut Stats, rng: &mut Rng, rows: usize, cols: usize) 
 }
 
 pub fn run(ctx: &Ctx) -> Report {
-    let nshape = 81u64; // (rows, cols) in [0,8]^2
+    let nshape = 121u64; // (rows, cols) in [0,10]^2
     let nexh = 9u64;    // shapes 1..3 x 1..3
     let nperm = ctx.vol(6000, 400_000);
-    let reps = ctx.vol(1500, 80_000);
+    let reps = ctx.vol(1000, 55_000);
     let stats = par_run(ctx, TAG, nshape + nexh + nperm, |u, rng, st| {
-        if u < nshape { for _ in 0..reps { history(st, rng, (u / 9) as usize, (u % 9) as usize); } }
+        if u < nshape { for _ in 0..reps { history(st, rng, (u / 11) as usize, (u % 11) as usize); } }
         else if u < nshape + nexh { let v = (u - nshape) as usize; exhaustive_patterns(st, rng, v / 3 + 1, v % 3 + 1); }
         else { for _ in 0..4 { order_independence(st, rng); } }
     });
     let mut rep = Report::new(stats,
-        "histories: for every shape (rows,cols) in [0,8]^2 build a random duplicate-free Rat matrix (densities 0..1, forced empty first/last columns, explicit zero values) by from_triplets (shuffled) or from_vecs (rows in sorted or scrambled order), then <=25 steps of insert-new/insert-overwrite/scale/transpose; after every step the public CSC fields are checked for well-formedness and get(r,c) for every (r,c), to_triplets, to_dense, col_index are compared with a BTreeMap model. Exhaustive: all 2^(r*c) patterns for shapes up to 3x3; all k! orders of triplet lists with k<=6. Non-trivial: at least 2 cells; distinct = distinct history hashes");
+        "histories: for every shape (rows,cols) in [0,10]^2 build a random duplicate-free Rat matrix (densities 0..1, forced empty first/last columns, explicit zero values) by from_triplets (shuffled) or from_vecs (rows in sorted or scrambled order), then <=25 steps of insert-new/insert-overwrite/scale/transpose; after every step the public CSC fields are checked for well-formedness and get(r,c) for every (r,c), to_triplets, to_dense, col_index are compared with a BTreeMap model. Exhaustive: all 2^(r*c) patterns for shapes up to 3x3; all k! orders of triplet lists with k<=6. Non-trivial: at least 2 cells; distinct = distinct history hashes");
     rep.assumptions = vec!["duplicate-free entry sets only (as the property states)".into(), "from_vecs is given valid arrays (it is documented as unchecked)".into()];
     rep.min_nontrivial = 500;
-    rep.extra.set("exhaustive_parts", crate::json::J::Arr(vec![crate::json::J::s("shapes [0,8]^2 for histories"), crate::json::J::s("all sparsity patterns for shapes 1..3 x 1..3"), crate::json::J::s("all permutations of triplet lists of length <= 6")]));
+    rep.extra.set("exhaustive_parts", crate::json::J::Arr(vec![crate::json::J::s("shapes [0,10]^2 for histories"), crate::json::J::s("all sparsity patterns for shapes 1..3 x 1..3"), crate::json::J::s("all permutations of triplet lists of length <= 6")]));
     rep
 }
